@@ -374,8 +374,9 @@ Definition render_answer (a : answer) (s : sstate) : bytes * sstate :=
   | AnsScript c =>
       let '(ch, s1) := pick s in
       let body := render_string (enc_of ch) c in
+      let is_lit := match enc_of ch with ELiteral => true | EQuoted => negb (quotable c) end in
       let eol := if cfg_eol_after_literal (s_cfg s) then CRLF
-                 else if ends_with CRLF body then [] else CRLF in
+                 else if is_lit && ends_with CRLF c then [] else CRLF in
       let '(r, s2) := reply_bytes StOK None (bs "getscript completed") s1 in
       (body ++ eol ++ r, s2)
   end.
